@@ -82,6 +82,41 @@ func VerifHarness_GlobMatch() {
 	}
 }
 
+// Non-ASCII hosts: one character is one UTF-8 encoded rune for '?', and letters outside ASCII compare
+// case-insensitively too. Latin-1 letters (U+00C0..U+00FF, second byte symbolic) around fixed text.
+func VerifHarness_GlobMatchLatin1() {
+	zz.MaxLen(2)
+	zz.Unwind(400)
+	b := zz.Byte()
+	zz.Assume(b >= 0x80 && b <= 0xbf)
+	ch := string([]byte{0xc3, b}) // U+00C0 + (b-0x80)
+	lower := ch
+	if b <= 0x9e && b != 0x97 { // À..Þ except the multiplication sign have lower-case forms 0x20 above
+		lower = string([]byte{0xc3, b + 0x20})
+	}
+	switch zz.Choose(4) {
+	case 0: // '?' matches exactly one character, not one byte
+		ok, g := matchWithGroups(ch+".b", "?.b")
+		zz.Assert(ok && len(g) == 1 && g[0] == lower, "'?' did not match exactly one non-ASCII character (or captured something else)")
+		ok, _ = matchWithGroups(ch+".b", "??.b")
+		zz.Assert(!ok, "'??' matched a single two-byte character")
+	case 1: // literal non-ASCII letters compare case-insensitively
+		ok, _ := matchWithGroups(ch+".b", lower+".b")
+		zz.Assert(ok, "a host differing from the pattern only in the case of a non-ASCII letter did not match")
+		ok, _ = matchWithGroups(lower+".b", ch+".b")
+		zz.Assert(ok, "a pattern differing from the host only in the case of a non-ASCII letter did not match")
+	case 2: // '*' captures the character whole
+		ok, g := matchWithGroups("a"+ch+"c", "a*c")
+		zz.Assert(ok && len(g) == 1 && g[0] == lower, "'*' did not capture a non-ASCII character whole")
+	case 3: // a pattern without wildcards of the same character count but different byte length
+		ok, _ := matchWithGroups(ch+"x", "?x")
+		zz.Assert(ok, "'?x' did not match a non-ASCII character followed by x")
+		ok, _ = matchWithGroups("\u212a.b", "k.b") // U+212A KELVIN SIGN lower-cases to k
+		zz.Assert(ok, "the Kelvin sign did not match k case-insensitively")
+	}
+	zz.Reach("latin1")
+}
+
 // First matching route in configuration order wins; a host matching no route yields no route.
 func VerifHarness_FirstRouteWins() {
 	zz.MaxLen(3)
